@@ -38,6 +38,10 @@ def run(tier, replay=None):
         raise vlib.Infra("PsLock violates %s (specification problem)" % lk.violation)
     old = vlib.run_tlc("PsLock", "PsLockOld.cfg", workers=1, timeout=600)
     race_trace = [s["_action"].split(" line")[0].lstrip("<") for s in old.error_trace][1:]
+    insp = vlib.run_tlc("PsLock", "PsLockInspect.cfg", workers=1, timeout=600)
+    if insp.ok:
+        raise vlib.Infra("PsLockInspect: a refused inspector that removes the lock should break OneWriter (vacuous model)")
+    insp_trace = [s["_action"].split(" line")[0].lstrip("<") for s in insp.error_trace][1:]
     p = vh(["lock-race", os.path.join(wd, "lock.json"), wd])
     if p.returncode != 0:
         raise vlib.Infra("lock-race: rc=%d %s" % (p.returncode, p.stderr[-1000:]))
@@ -113,6 +117,14 @@ def run(tier, replay=None):
         if o["invoke"]:
             raise vlib.Infra("the original program of pair %s does not start: %s" % (q["id"], o["invoke"][:300]))
         kind = q["id"].split(":")[1]
+        if kind == "rename_filetype":
+            # does the renamed type occur inside a collection-typed parameter or member
+            ft = q["id"].split(":")[2]
+            decls = [x for st in q["a"]["stages"] for x in st["ins"] + st["outs"]] + \
+                    [x for pl in q["a"]["pipelines"] for x in pl["ins"] + pl["outs"]] + \
+                    [x for sd in q["a"].get("structs", []) for x in sd["fields"]]
+            if any(x["t"]["b"] == ft and (x["t"]["a"] > 0 or x["t"]["m"] > 0) for x in decls):
+                kind = "rename_filetype_used_in_collection"
         exp_same = same[q["id"]]
         got = o["reattach"]
         counts["%s:%s" % ("same" if exp_same else "changed", got)] = counts.get("%s:%s" % ("same" if exp_same else "changed", got), 0) + 1
@@ -130,6 +142,11 @@ def run(tier, replay=None):
         if not exp_same and got == "accepted":
             viols.append({"key": "C15:accepted-though-changed:%s" % kind,
                           "what": "re-attach was accepted although what would run changed: edit %s" % q["id"], "replay": rp})
+        if o.get("locked_after_ro") == "accepted":
+            viols.append({"key": "C15:lock:attach-while-held-after-inspection",
+                          "what": "after a read-only attach with edited definitions (%s) a second mrp attached for writing while the first still held the lock (pair %s)" % (
+                              o.get("edited_ro"), q["id"]), "replay": rp})
+        counts["inspect:%s" % o.get("edited_ro")] = counts.get("inspect:%s" % o.get("edited_ro"), 0) + 1
         if o["locked_rw"] == "accepted":
             viols.append({"key": "C15:lock:attach-while-held",
                           "what": "a second mrp attached for writing while the first held the lock (pair %s)" % q["id"], "replay": rp})
@@ -140,7 +157,8 @@ def run(tier, replay=None):
     kinds = sorted({q["id"].split(":")[1] for q in ps})
     vlib.write_evidence("C15", tier, "model_checking", {
         "states": lk.distinct + len(ps), "transitions": lk.generated + len(ps), "exhaustive": False,
-        "exhaustive_model_runs": ["PsLock (3 instances, Atomic): %d states, OneWriter holds" % lk.distinct,
+        "exhaustive_model_runs": ["PsLock (3 instances, Atomic, read-only inspectors): %d states, OneWriter holds" % lk.distinct,
+                                  "PsLock with a refused inspector that removes _lock: OneWriter violated by %s - the same sequence (owner, refused read-only attach with edited definitions, write attach) is run on the real code for every pair" % " ; ".join(insp_trace),
                                   "PsLock (2 instances, check-then-write): OneWriter violated by %s - replayed on the real code" % " ; ".join(race_trace)],
         "traces_validated_against_impl": len(ps) + len(lock),
         "pairs": len(ps), "edit_kinds": kinds, "outcomes": counts,
